@@ -611,7 +611,10 @@ impl GameEnv {
         let history: Vec<i64> = st["history"].as_array().map(|a| a.iter().map(|x| x.as_i64().unwrap()).collect()).unwrap_or_default();
         let info = self.honest_ready(st["cb"].as_u64().unwrap_or(100), st["mb"].as_u64().unwrap_or(50), &history);
         let amount = st["amount"].as_i64().unwrap_or(7);
-        let (_hb, tpl, _hn) = self.honest_pay_proof(&info, 1);
+        // template layout from any honest payment the channel admits (1, or -1 / 0 at the boundaries)
+        let mbig = info.old[4] == Scalar::from(i64::MAX as u64);
+        let czero = info.old[3] == Scalar::zero();
+        let (_hb, tpl, _hn) = self.honest_pay_proof(&info, if mbig && czero { 0 } else if mbig || czero { -1 } else { 1 });
         let mut rng = self.rng(4);
         let seed_r = self.seed.wrapping_add(self.counter * 77);
         let m: &'static merchant::Config = self.world.mers[0];
